@@ -232,8 +232,8 @@ func Run(ctx *core.Ctx) {
 	}()
 
 	const nworkers = 6
-	ngroups := ctx.Pick(260, 9000)
-	nfields := ctx.Pick(60, 1500)
+	ngroups := ctx.Pick(500, 9000)
+	nfields := ctx.Pick(150, 1500)
 	type job struct {
 		kind string
 		idx  int
@@ -282,6 +282,12 @@ func Run(ctx *core.Ctx) {
 	}
 	wg.Wait()
 	owg.Wait()
+	if skipped := ctx.Counter("glob_groups_universe_differs") + ctx.Counter("glob_groups_load_rejected") + ctx.Counter("glob_groups_baseline_unparsed"); skipped*10 > int64(ngroups) {
+		ctx.Inconclusive(fmt.Sprintf("%d of %d glob groups could not be judged (unfiltered listing differs from the loaded universe / load rejected)", skipped, ngroups))
+	}
+	if skipped := ctx.Counter("field_datasets_load_rejected") + ctx.Counter("field_baseline_unparsed") + ctx.Counter("field_baseline_unknown_id"); skipped*10 > int64(nfields) {
+		ctx.Inconclusive(fmt.Sprintf("%d of %d field datasets could not be judged", skipped, nfields))
+	}
 	ctx.Finish()
 }
 
